@@ -110,15 +110,27 @@ def gen_sequence(r):
 
     prior = [spend_args() for _ in range(r.randint(0, 4))] if r.chance(0.3) else []
     ops = []
+
+    def slack_value():
+        return r.choice([0.0, cd, cd / 2, cd * r.u01(), -0.1, cd + 0.1, 1e-9 if cd > 1e-9 else cd])
     for _ in range(n_ops):
         m = r.u01()
+        if m < 0.08:
+            # a cleared check followed — possibly after slack changes / queries — by a spend of the very same pair
+            # (the library's own check-then-spend pattern; any 'clearance' remembered by check must not survive)
+            a = spend_args()
+            ops.append(("check",) + a)
+            for _k in range(r.randint(0, 2)):
+                ops.append(r.choice([("slack", slack_value()), ("total",), ("remaining", r.randint(1, 3)),
+                                     ("slack", 0.0), ("mutate", r.randint(0, 5))]))
+            ops.append(("spend",) + a)
+            continue
         if m < 0.5:
             ops.append(("spend",) + spend_args())
         elif m < 0.62:
             ops.append(("check",) + spend_args())
         elif m < 0.72:
-            s = r.choice([0.0, cd, cd / 2, cd * r.u01(), -0.1, cd + 0.1, 1e-9 if cd > 1e-9 else cd])
-            ops.append(("slack", s))
+            ops.append(("slack", slack_value()))
         elif m < 0.8:
             ops.append(("total",))
         elif m < 0.88:
@@ -323,6 +335,8 @@ FIXED_SEQS = [
                                     ("spend", 0.7, 0.0), ("check", 0.1, 0.5), ("rebuild",), ("mutate", 1)]),
     (float("inf"), 1.0, 0.0, [], [("spend", 5.0, 0.5), ("spend", 1.0, 1.0), ("spend", 1.0, 0.1), ("remaining", 2)]),
     (float("inf"), 0.5, 0.0, [], [("spend", 5.0, 0.4), ("spend", 1.0, 0.2), ("remaining", 2), ("slack", 0.1)]),
+    (0.97, 1e-3, 1e-3, [], [("spend", 0.05, 0.0)] * 19 + [("check", 0.05, 0.0), ("slack", 0.0), ("spend", 0.05, 0.0), ("total",)]),
+    (float("inf"), 1e-5, 0.0, [], [("check", 1.0, 1e-5), ("spend", 1.0, 1e-5), ("spend", 1.0, 1e-5), ("rebuild",)]),
     (1.0, 0.0, 0.0, [(0.25, 0.0), (0.25, 0.0)], [("mutate", 4), ("total",), ("spend", 0.5, 0.0), ("mutate", 5), ("total",),
                                                   ("spend", 0.5, 0.0), ("rebuild",)]),
 ]
